@@ -363,6 +363,55 @@ pub fn cmd_io(a: &Args) {
                 "res": res, "args_ok": args_ok, "atts_ok": atts_ok, "natt_raw": raw, "ids_ok": ids_ok}).to_string());
         }
     }
+    // C14: large frameworks (hundreds to thousands of arguments, labels of 1-40 characters, built through an update history with
+    // removals) written by AspartixWriter and read back; the comparison is done here, TLC checks the verdict fields
+    let nbigrt = a.num("bigrt", 0);
+    if nbigrt > 0 {
+        let mut rng = StdRng::seed_from_u64(seed ^ 0x0b19);
+        for i in 0..nbigrt {
+            let n = rng.gen_range(50..600) * if i % 4 == 3 { 6 } else { 1 };
+            let label = |k: usize, rng_len: usize| -> String {
+                let mut l = format!("x{}", k);
+                while l.len() < rng_len { l.push('_'); l.push_str(&format!("{}", k % 10)); }
+                l
+            };
+            let lens: Vec<usize> = (0..n).map(|_| rng.gen_range(1..40)).collect();
+            let labels: Vec<String> = (0..n).map(|k| label(k, lens[k])).collect();
+            let mut af: AAFramework<String> = AAFramework::default();
+            for l in &labels { af.new_argument(l.clone()); }
+            let mut live: Vec<bool> = vec![true; n];
+            let mut atts: std::collections::BTreeSet<(usize, usize)> = Default::default();
+            for _ in 0..rng.gen_range(n..4 * n) {
+                let x = rng.gen_range(0..n); let y = rng.gen_range(0..n);
+                if live[x] && live[y] { af.new_attack(&labels[x], &labels[y]).unwrap(); atts.insert((x, y)); }
+                if rng.gen_bool(0.03) {
+                    let z = rng.gen_range(0..n);
+                    if live[z] { af.remove_argument(&labels[z]).unwrap(); live[z] = false; atts.retain(|p| p.0 != z && p.1 != z); }
+                }
+                if rng.gen_bool(0.05) {
+                    if let Some(p) = atts.iter().next().cloned() { af.remove_attack(&labels[p.0], &labels[p.1]).unwrap(); atts.remove(&p); }
+                }
+            }
+            let r = catch_unwind(AssertUnwindSafe(|| {
+                let mut buf: Vec<u8> = vec![];
+                AspartixWriter.write_framework(&af, &mut buf).unwrap();
+                let text = String::from_utf8(buf).unwrap();
+                let nlines = text.matches('\n').count();
+                let back = AspartixReader::default().read(&mut text.as_bytes()).ok()?;
+                let want_args: Vec<&String> = (0..n).filter(|k| live[*k]).map(|k| &labels[k]).collect();
+                let got_args: Vec<&String> = back.argument_set().iter().map(|a| a.label()).collect();
+                let mut got_atts: Vec<(String, String)> = back.iter_attacks().map(|t| (t.attacker().label().clone(), t.attacked().label().clone())).collect();
+                let raw = got_atts.len();
+                got_atts.sort(); got_atts.dedup();
+                let mut want_atts: Vec<(String, String)> = atts.iter().map(|p| (labels[p.0].clone(), labels[p.1].clone())).collect();
+                want_atts.sort();
+                Some((want_args == got_args, want_atts == got_atts, raw == want_atts.len(), nlines == want_args.len() + want_atts.len(), text.len()))
+            }));
+            let (res, a1, a2, a3, a4, bytes) = match r { Ok(Some(t)) => ("ok", t.0, t.1, t.2, t.3, t.4), Ok(None) => ("err", false, false, false, false, 0), Err(_) => ("panic", false, false, false, false, 0) };
+            lines.push(json!({"ev": "bigrt", "n": n, "live": live.iter().filter(|b| **b).count(), "natt": atts.len(), "bytes": bytes,
+                "res": res, "args_ok": a1, "atts_ok": a2, "nodup": a3, "lines_ok": a4}).to_string());
+        }
+    }
     util::write_lines(&out, lines.into_iter());
 }
 
